@@ -24,7 +24,7 @@ class Model:
 
     # ------------------------------------------------------------------ elaboration
     def _new(self, typ, flag, rules=None):
-        kind = "gpos" if typ.startswith("pos") else "gsub"
+        kind = "gpos" if typ.startswith(("pos", "mark")) else "gsub"
         self.lookups.append({"kind": kind, "type": typ, "flag": flag, "rules": list(rules or [])})
         return len(self.lookups) - 1
 
@@ -99,6 +99,8 @@ class Model:
                 elif t == "lig":
                     keys = self._expand(r["comps"])
                 elif t == "pos1":
+                    keys = r["glyphs"]
+                elif t in ("markbase", "markmark", "marklig"):
                     keys = r["glyphs"]
                 for k in keys:
                     if k in seen:
@@ -338,6 +340,8 @@ class Model:
                         end = max(end + delta, i + 1)
                 return end
             return None
+        if t in ("markbase", "markmark", "marklig"):
+            return None  # attachment is compared at table level (attachments()), not through the glyph buffer
         if t == "pos1":
             for r in l["rules"]:
                 if g in r["glyphs"]:
@@ -391,6 +395,31 @@ class Model:
             if a is None or buf[a] not in s["g"]:
                 return None
         return inp
+
+    def attachments(self, script, lang, only, base, mark, comp=None):
+        """What the active mark lookups, in order, attach for (base or ligature component, mark): (kind, base anchor, mark anchor)."""
+        out = []
+        mc = self.prog.get("markclasses", {})
+        for lid in self.lookups_for(script, lang, "gpos", only):
+            L = self.lookups[lid]
+            t = L["type"]
+            if t not in ("markbase", "markmark", "marklig") or (t == "marklig") != (comp is not None):
+                continue
+            hit = None
+            for r in L["rules"]:
+                if base not in r["glyphs"]:
+                    continue
+                att = r["att"] if t != "marklig" else (r["comps"][comp] if comp < len(r["comps"]) else [])
+                for cname, banchor in att:
+                    for gl, manchor in mc.get(cname, []):
+                        if mark in gl:
+                            hit = ({"markbase": "base", "markmark": "mark", "marklig": "lig"}[t], tuple(banchor), tuple(manchor))
+                if hit:
+                    break
+            # the mark must be one of the lookup's marks at all: every class a rule of this lookup names contributes its marks
+            if hit:
+                out.append(hit)
+        return out
 
     def shape(self, glyphs, script, lang, only=None, alt_index=1):
         buf = list(glyphs)
